@@ -30,6 +30,7 @@ impl Masker for LiterateHaskellMasker {
 
         let mut location = 0;
         let mut in_code_env = false;
+        let mut in_latex_env = false;
         // The start of the file counts as a blank line: a bird-track block may open the document.
         let mut last_line_blank = true;
 
@@ -41,11 +42,13 @@ impl Masker for LiterateHaskellMasker {
             // Code fencing
             let latex_style = matches!(trimmed, r"\begin{code}" | r"\end{code}");
             let code_start = trimmed == r"\begin{code}" || (last_line_blank && line_is_bird);
-            let code_end = trimmed == r"\end{code}" || trimmed.is_empty();
+            // A blank line only closes a bird-track block; a `\begin{code}` environment runs up to `\end{code}`.
+            let code_end = trimmed == r"\end{code}" || (!in_latex_env && trimmed.is_empty());
 
             // Toggle on fence
             if (!in_code_env && code_start) || (in_code_env && code_end) {
                 in_code_env = !in_code_env;
+                in_latex_env = in_code_env && latex_style;
 
                 // Exclude latex-style fence
                 if latex_style {
